@@ -12,7 +12,7 @@ META = {
                    'first op starts at its first control point; R01.4 subpaths are implicitly closed (MoveTo closes first, close() after the '
                    'loop), close() adds current->first and returns the cursor to the start, curve flags are right; R20.4 arcs are forwarded as '
                    'quadratics; R08.7 the forward-difference set-up of a quadratic edge (dx, ddx, count, first step) satisfies the identities of the curve through (p1, c, p2).',
-    'decides': ['R08.8 no branch in quad_to/cubic_to/add_quad (all axes) or add_edge (x axis) is decided by end points without control points', 'R08.1 every control point transformed; each arm hands its op on as the op it is, on every path', 'R08.2 monotonic chopping delivers both halves', 'R08.3 cubic/quad plumbing and cursor law', 'R01.4 implicit close and curve flags', 'R08.5 x/y halves of the curve set-up are twins', 'R08.7 forward-difference coefficients of a quadratic edge are those of the curve it was given (polynomial identities, shifts as exact scalings), count = 2^shift, advance-then-update order in add_edge and ActiveEdge::step', 'R20.4 arc plumbing'],
+    'decides': ['R11.10 no transform-dependent skip of the geometry in apply_path', 'R08.8 no branch in quad_to/cubic_to/add_quad (all axes) or add_edge (x axis) is decided by end points without control points', 'R08.1 every control point transformed; each arm hands its op on as the op it is, on every path', 'R08.2 monotonic chopping delivers both halves', 'R08.3 cubic/quad plumbing and cursor law', 'R01.4 implicit close and curve flags', 'R08.5 x/y halves of the curve set-up are twins', 'R08.7 forward-difference coefficients of a quadratic edge are those of the curve it was given (polynomial identities, shifts as exact scalings), count = 2^shift, advance-then-update order in add_edge and ActiveEdge::step', 'R20.4 arc plumbing'],
     'does_not_decide': ['accuracy: subdivision count, rounding of the forward differences (shifts are read as exact scalings), the 0.01 cubic tolerance, the one-pixel margin (numeric)', 'the slope of each curve segment (div_fixed16_fixed16) and overflow of the 16.16 arithmetic'],
     'assumptions': ['lyon_geom CubicBezierSegment::for_each_quadratic_bezier approximates the cubic within its tolerance (external)'],
     'trusted_base': ['lyon_geom 1.0.19', 'euclid 0.22.14'],
@@ -21,4 +21,4 @@ META = {
 
 def run(ctx):
     import props.c11 as c11
-    engine.run_rules(ctx, [ras.r08_1, ras.r08_2, ras.r08_34, ras.r01_4_close, ras.r08_5, ras.r08_7, c20.r20_3, c20.r20_4, ras.r01_10, ras.r01_11, ras.r01_12, ras.r08_6, ras.r08_8, ras.r10_4, ras.r01_15, c11.r11_9])
+    engine.run_rules(ctx, [ras.r08_1, ras.r08_2, ras.r08_34, ras.r01_4_close, ras.r08_5, ras.r08_7, c20.r20_3, c20.r20_4, ras.r01_10, ras.r01_11, ras.r01_12, ras.r08_6, ras.r08_8, ras.r10_4, ras.r01_15, c11.r11_9, c11.r11_10])
